@@ -466,3 +466,261 @@ Proof.
   - intro u. rewrite R1. auto.
   - intro w. destruct (Nat.eq_dec w v) as [->|D]; [rewrite R2; apply dedup_NoDup | rewrite R3; auto].
 Qed.
+
+(* ---------------------------------------------------------------------------------------- *)
+(* 2. every operation preserves the invariant                                               *)
+Lemma fst_ok_or R V : fst (let '(r, out) := ok_or R V in (res_state r, out)) = res_state R.
+Proof. destruct R; reflexivity. Qed.
+Lemma snd_ok_or R V : snd (let '(r, out) := ok_or R V in (res_state r, out)) =
+  match R with Ok _ => Ret V | Raise e _ => Raised e end.
+Proof. destruct R; reflexivity. Qed.
+Lemma fst_pair_let (p : res * outcome) : fst (let '(r, out) := p in (res_state r, out)) = res_state (fst p).
+Proof. destruct p; reflexivity. Qed.
+
+Lemma pinv_ext v p s s' : vunis s' = vunis s -> uverts s' = uverts s -> pinv v p s -> pinv v p s'.
+Proof. intros A B. unfold pinv, uni_nodup, vu, uv. rewrite A, B. auto. Qed.
+
+Lemma keep_good' s0 s' n : keep s0 s' -> uni_inv s0 -> next s0 = n -> good n s'.
+Proof. intros K I <-. now apply keep_good. Qed.
+
+Lemma uni_inv_new_edge s k a b : wf s -> uni_inv s -> uni_inv (res_state (fst (new_edge s k a b))).
+Proof.
+  intros W I. unfold new_edge. destruct (_ || _); cbn [fst res_state]; auto.
+  apply (keep_inv (alloc k s)); [|now apply uni_inv_alloc].
+  cbn [seq_ores]. apply (P_bind (keep (alloc k s))).
+  { apply P_l_add_vertex; auto with st. }
+  intros s1 K1. apply (P_bind (keep (alloc k s))).
+  { apply P_l_add_vertex; auto. }
+  intros; cbn [res_state]; auto.
+Qed.
+
+Lemma new_universe_tail s1 L u vs : good (next s1) s1 -> u < next s1 -> (forall v, In v vs -> v < next s1) ->
+  uni_inv (res_state (bind (l_set_applies FUEL s1 L (Some u))
+                           (fun s2 => seq_res (fun s0 v => u_add_vertex FUEL s0 u v) vs s2))).
+Proof.
+  intros (W1 & _ & I1) Hu Hvs.
+  pose proof (P_l_set_applies (keep s1) (keep_ul s1) (keep_la s1) FUEL s1 L (Some u) (keep_refl s1 W1)) as K.
+  destruct (l_set_applies FUEL s1 L (Some u)) as [s2|e s2]; cbn [bind res_state] in *.
+  - pose proof (keep_good _ _ K I1) as G. pose proof K as (_ & N & _). rewrite <- N in G, Hu, Hvs.
+    destruct (uadd_loop u vs s2 G Hu Hvs) as (s' & -> & G'). apply G'.
+  - eapply keep_inv; eauto.
+Qed.
+
+Theorem uni_inv_step s o : wf s -> uni_inv s -> uni_inv (fst (step s o)).
+Proof.
+  intros W I. unfold step. destruct (well_typed s o) eqn:WT; cbn [negb]; [|exact I].
+  assert (G : good (next s) s) by (split; [|split]; auto).
+  destruct o; cbv beta iota zeta; rewrite ?fst_ok_or; cbn [well_typed] in WT;
+    try (apply andb_true_iff in WT; destruct WT as [WT1 WT2]).
+  - (* NewVertex *)
+    set (v := next s). set (s0 := set_vu _ v _).
+    assert (W0 : wf s0) by (unfold s0; auto with st).
+    assert (N0 : next s0 = S (next s)) by (unfold s0; rewrite next_set_vu; apply next_alloc).
+    assert (Hv0 : v < next s0) by (unfold v; lia).
+    destruct (link_loop v ls s0 W0 Hv0) as (s1 & -> & (W1 & N1 & V1 & U1)). cbn [bind].
+    assert (E : vu s1 v = dedup us).
+    { unfold vu. rewrite V1. fold (vu s0 v). unfold s0. apply vu_set_vu_same; auto with st.
+      all: try (rewrite next_alloc; unfold v; lia). }
+    rewrite E.
+    destruct (new_vertex_loop v (dedup us) s1 W1) as (s' & -> & G' & _).
+    + lia.
+    + intros u Hu. apply (proj1 (dedup_In _ _)) in Hu. pose proof (forallb_isu_lt _ _ WT1 u Hu). lia.
+    + apply (pinv_ext _ _ s0); auto. apply pinv_init; auto.
+    + apply G'.
+  - (* NewUniverse *)
+    pose proof (forallb_isv_lt _ _ WT1) as Hvs.
+    destruct oL as [L|]; rewrite fst_ok_or; apply new_universe_tail.
+    + rewrite next_set_ul, next_alloc. apply (keep_good' (alloc KUniverse s)); auto with st.
+      * now apply uni_inv_alloc.
+      * apply next_alloc.
+    + rewrite next_set_ul, next_alloc. lia.
+    + intros v Hv. rewrite next_set_ul, next_alloc. specialize (Hvs v Hv). lia.
+    + rewrite next_set_ul, next_set_la, !next_alloc.
+      apply (keep_good' (alloc KLaws (alloc KUniverse s))).
+      * apply keep_ul, keep_la, keep_refl. auto with st.
+      * apply uni_inv_alloc; auto with st. now apply uni_inv_alloc.
+      * now rewrite !next_alloc.
+    + rewrite next_set_ul, next_set_la, !next_alloc. lia.
+    + intros v Hv. rewrite next_set_ul, next_set_la, !next_alloc. specialize (Hvs v Hv). lia.
+  - (* NewLaws *)
+    cbn [fst res_state]. apply (keep_inv (alloc KLaws s)); auto with st. now apply uni_inv_alloc.
+  - rewrite fst_pair_let. now apply uni_inv_new_edge.
+  - apply (keep_inv s); auto. apply P_l_set_end; auto.
+  - apply (keep_inv s); auto. apply P_l_set_end; auto.
+  - apply (keep_inv s); auto. apply P_v_add_to_link; auto.
+  - apply (keep_inv s); auto. apply P_v_remove_from_link; auto.
+  - apply (keep_inv s); auto. apply P_l_add_vertex; auto.
+  - apply (keep_inv s); auto. apply P_l_unlink_from; auto.
+  - (* LinkFromTo *)
+    destruct (if dontdup then _ else _) as [[l|]|]; cbn [fst res_state]; auto.
+    rewrite fst_pair_let. now apply uni_inv_new_edge.
+  - (* Unlink *)
+    destruct (find_links _ _ _ _ _ _ _) as [links|e]; [rewrite fst_ok_or|cbn [fst res_state]; auto].
+    apply (keep_inv s); auto. apply (P_seq_res (keep s)); auto.
+    intros s1 l K1. apply (P_bind (keep s)). { apply P_l_unlink_from; auto. }
+    intros. apply P_l_unlink_from; auto.
+  - apply isu_lt in WT1. apply isv_lt in WT2.
+    destruct (good_u_add s u v G WT1 WT2) as (s' & -> & G'). apply G'.
+  - apply isu_lt in WT1. apply isv_lt in WT2. now apply good_u_rem.
+  - apply isv_lt in WT1. apply isu_lt in WT2.
+    destruct (good_v_add s u v G WT2 WT1) as (s' & -> & G'). apply G'.
+  - apply isv_lt in WT1. apply isu_lt in WT2. now apply good_v_rem.
+  - apply (keep_inv s); auto. apply P_u_set_laws; auto.
+  - apply (keep_inv s); auto. apply P_l_set_applies; auto.
+  - cbn [fst res_state]. apply (keep_inv s); auto.
+Qed.
+
+(* 3. hence in every reachable state *)
+Lemma uni_inv_empty : uni_inv empty.
+Proof.
+  assert (E : forall i, get (@nil nat) i [] = []) by (intros [|i]; reflexivity).
+  split; [|split]; unfold uni_sym, uv, vu; cbn [uverts vunis empty]; intros; rewrite ?E; [tauto|constructor|constructor].
+Qed.
+Lemma uni_inv_run ops : forall s, wf s -> uni_inv s -> uni_inv (run ops s).
+Proof.
+  induction ops as [|o r IH]; cbn; auto. intros s W I. apply IH; [now apply wf_step | now apply uni_inv_step].
+Qed.
+Theorem uni_inv_reachable : forall ops, uni_inv (run ops empty).
+Proof. intro ops. apply uni_inv_run; [apply wf_empty | apply uni_inv_empty]. Qed.
+
+(* ---------------------------------------------------------------------------------------- *)
+(* 4. documented effects at step level                                                      *)
+Definition out_of (r : res) (v : value) : outcome := match r with Ok _ => Ret v | Raise e _ => Raised e end.
+Lemma step_ok_or_eq R V : (let '(r, out) := ok_or R V in (res_state r, out)) = (res_state R, out_of R V).
+Proof. destruct R; reflexivity. Qed.
+
+Lemma step_uadd s u v : well_typed s (UAddVertex u v) = true ->
+  step s (UAddVertex u v) = (res_state (u_add_vertex FUEL s u v), out_of (u_add_vertex FUEL s u v) VNone).
+Proof. intro H. unfold step. rewrite H. cbn [negb]. cbv beta iota. apply step_ok_or_eq. Qed.
+Lemma step_urem s u v : well_typed s (URemoveVertex u v) = true ->
+  step s (URemoveVertex u v) = (res_state (u_remove_vertex FUEL s u v), out_of (u_remove_vertex FUEL s u v) VNone).
+Proof. intro H. unfold step. rewrite H. cbn [negb]. cbv beta iota. apply step_ok_or_eq. Qed.
+Lemma step_vadd s v u : well_typed s (VAddToUniverse v u) = true ->
+  step s (VAddToUniverse v u) = (res_state (v_add_to_universe FUEL s v u), out_of (v_add_to_universe FUEL s v u) VNone).
+Proof. intro H. unfold step. rewrite H. cbn [negb]. cbv beta iota. apply step_ok_or_eq. Qed.
+Lemma step_vrem s v u : well_typed s (VRemoveFromUniverse v u) = true ->
+  step s (VRemoveFromUniverse v u) = (res_state (v_remove_from_universe FUEL s v u), out_of (v_remove_from_universe FUEL s v u) VNone).
+Proof. intro H. unfold step. rewrite H. cbn [negb]. cbv beta iota. apply step_ok_or_eq. Qed.
+
+Lemma wt_uv s u v : isu s u && isv s v = true -> u < next s /\ v < next s.
+Proof. rewrite andb_true_iff. intros [A B]. split; [now apply isu_lt | now apply isv_lt]. Qed.
+Lemma wt_vu s u v : isv s v && isu s u = true -> u < next s /\ v < next s.
+Proof. rewrite andb_true_iff. intros [A B]. split; [now apply isu_lt | now apply isv_lt]. Qed.
+
+(* Universe.add_vertex / remove_vertex *)
+Theorem uadd_new s u v : wf s -> uni_inv s -> well_typed s (UAddVertex u v) = true ->
+  ~ In v (uv s u) ->
+  let s' := fst (step s (UAddVertex u v)) in
+  uv s' u = uv s u ++ [v] /\ vu s' v = vu s v ++ [u] /\
+  (forall u', u' <> u -> uv s' u' = uv s u') /\ (forall v', v' <> v -> vu s' v' = vu s v') /\
+  snd (step s (UAddVertex u v)) = Ret VNone.
+Proof.
+  intros W I WT Hn. destruct (wt_uv _ _ _ WT) as [Hu Hv].
+  rewrite (step_uadd _ _ _ WT), (u_add_new s W I u v Hu Hv Hn). cbn [fst snd res_state out_of]. cbv zeta.
+  destruct (reads_written s W u v Hu Hv (uv s u ++ [v]) (vu s v ++ [u])) as (A & B & C & D). auto.
+Qed.
+Theorem uadd_member_noop s u v : wf s -> uni_inv s -> well_typed s (UAddVertex u v) = true ->
+  In v (uv s u) -> step s (UAddVertex u v) = (s, Ret VNone).
+Proof.
+  intros W I WT Hn. destruct (wt_uv _ _ _ WT) as [Hu Hv].
+  rewrite (step_uadd _ _ _ WT), (u_add_member s W I u v Hu Hv Hn). reflexivity.
+Qed.
+Theorem uremove_member s u v : wf s -> uni_inv s -> well_typed s (URemoveVertex u v) = true ->
+  In v (uv s u) ->
+  let s' := fst (step s (URemoveVertex u v)) in
+  uv s' u = remove1 v (uv s u) /\ vu s' v = remove1 u (vu s v) /\
+  (forall u', u' <> u -> uv s' u' = uv s u') /\ (forall v', v' <> v -> vu s' v' = vu s v') /\
+  snd (step s (URemoveVertex u v)) = Ret VNone.
+Proof.
+  intros W I WT Hn. destruct (wt_uv _ _ _ WT) as [Hu Hv].
+  rewrite (step_urem _ _ _ WT), (u_rem_member s W I u v Hu Hv Hn). cbn [fst snd res_state out_of]. cbv zeta.
+  destruct (reads_written s W u v Hu Hv (remove1 v (uv s u)) (remove1 u (vu s v))) as (A & B & C & D). auto.
+Qed.
+Theorem uremove_nonmember_raises s u v : wf s -> uni_inv s -> well_typed s (URemoveVertex u v) = true ->
+  ~ In v (uv s u) -> step s (URemoveVertex u v) = (s, Raised ValueError).
+Proof.
+  intros W I WT Hn. destruct (wt_uv _ _ _ WT) as [Hu Hv].
+  rewrite (step_urem _ _ _ WT), (u_rem_nonmember s W I u v Hu Hv Hn). reflexivity.
+Qed.
+
+(* Vertex.add_to_universe / remove_from_universe (guards stated on the vertex's own list) *)
+Lemma vside s u v : uni_inv s -> (In u (vu s v) <-> In v (uv s u)).
+Proof. intros [Sy _]. symmetry. apply Sy. Qed.
+
+Theorem vadd_new s v u : wf s -> uni_inv s -> well_typed s (VAddToUniverse v u) = true ->
+  ~ In u (vu s v) ->
+  let s' := fst (step s (VAddToUniverse v u)) in
+  uv s' u = uv s u ++ [v] /\ vu s' v = vu s v ++ [u] /\
+  (forall u', u' <> u -> uv s' u' = uv s u') /\ (forall v', v' <> v -> vu s' v' = vu s v') /\
+  snd (step s (VAddToUniverse v u)) = Ret VNone.
+Proof.
+  intros W I WT Hn. rewrite (vside s u v I) in Hn. destruct (wt_vu _ _ _ WT) as [Hu Hv].
+  rewrite (step_vadd _ _ _ WT), (v_add_new s W I u v Hu Hv Hn). cbn [fst snd res_state out_of]. cbv zeta.
+  destruct (reads_written s W u v Hu Hv (uv s u ++ [v]) (vu s v ++ [u])) as (A & B & C & D). auto.
+Qed.
+Theorem vadd_member_noop s v u : wf s -> uni_inv s -> well_typed s (VAddToUniverse v u) = true ->
+  In u (vu s v) -> step s (VAddToUniverse v u) = (s, Ret VNone).
+Proof.
+  intros W I WT Hn. rewrite (vside s u v I) in Hn. destruct (wt_vu _ _ _ WT) as [Hu Hv].
+  rewrite (step_vadd _ _ _ WT), (v_add_member s W I u v Hu Hv Hn). reflexivity.
+Qed.
+Theorem vremove_member s v u : wf s -> uni_inv s -> well_typed s (VRemoveFromUniverse v u) = true ->
+  In u (vu s v) ->
+  let s' := fst (step s (VRemoveFromUniverse v u)) in
+  uv s' u = remove1 v (uv s u) /\ vu s' v = remove1 u (vu s v) /\
+  (forall u', u' <> u -> uv s' u' = uv s u') /\ (forall v', v' <> v -> vu s' v' = vu s v') /\
+  snd (step s (VRemoveFromUniverse v u)) = Ret VNone.
+Proof.
+  intros W I WT Hn. rewrite (vside s u v I) in Hn. destruct (wt_vu _ _ _ WT) as [Hu Hv].
+  rewrite (step_vrem _ _ _ WT), (v_rem_member s W I u v Hu Hv Hn). cbn [fst snd res_state out_of]. cbv zeta.
+  destruct (reads_written s W u v Hu Hv (remove1 v (uv s u)) (remove1 u (vu s v))) as (A & B & C & D). auto.
+Qed.
+Theorem vremove_nonmember_raises s v u : wf s -> uni_inv s -> well_typed s (VRemoveFromUniverse v u) = true ->
+  ~ In u (vu s v) -> step s (VRemoveFromUniverse v u) = (s, Raised ValueError).
+Proof.
+  intros W I WT Hn. rewrite (vside s u v I) in Hn. destruct (wt_vu _ _ _ WT) as [Hu Hv].
+  rewrite (step_vrem _ _ _ WT), (v_rem_nonmember s W I u v Hu Hv Hn). reflexivity.
+Qed.
+
+(* Vertex(universes=us): _universes = us de-duplicated, appended to each of them, rest unchanged *)
+Theorem new_vertex_universes s sub us : wf s -> uni_inv s -> well_typed s (NewVertex sub us []) = true ->
+  let s' := fst (step s (NewVertex sub us [])) in
+  vu s' (next s) = dedup us /\
+  (forall u, In u us -> uv s' u = uv s u ++ [next s]) /\
+  (forall u, ~ In u us -> uv s' u = uv s u) /\
+  (forall w, w <> next s -> vu s' w = vu s w) /\
+  next s' = S (next s) /\
+  snd (step s (NewVertex sub us [])) = Ret (VId (next s)).
+Proof.
+  intros W I WT. unfold step. rewrite WT. cbn [negb]. cbv beta iota zeta. cbn [seq_res bind].
+  pose proof WT as WT'. cbn [well_typed] in WT'. apply andb_true_iff in WT'. destruct WT' as [WT1 _].
+  set (k := if sub then KVertexSub else KVertex).
+  assert (Wa : wf (alloc k s)) by auto with st.
+  assert (Hva : next s < next (alloc k s)) by (rewrite next_alloc; lia).
+  rewrite (vu_set_vu_same _ Wa _ Hva).
+  set (s0 := set_vu (alloc k s) (next s) (dedup us)).
+  assert (W0 : wf s0) by (unfold s0; auto with st).
+  destruct (new_vertex_loop (next s) (dedup us) s0 W0) as (s' & -> & G & V & A & B).
+  - exact Hva.
+  - intros u Hu. apply (proj1 (dedup_In _ _)) in Hu. pose proof (forallb_isu_lt _ _ WT1 u Hu).
+    unfold s0. rewrite next_set_vu, next_alloc. lia.
+  - apply pinv_init; auto.
+  - cbn [ok_or fst snd res_state].
+    assert (R1 : forall u, uv s0 u = uv s u) by (intro; unfold s0; rewrite uv_set_vu; now apply uv_alloc_all).
+    assert (R2 : forall w, vu s' w = vu s0 w) by (intro; unfold vu; now rewrite V).
+    repeat split.
+    + rewrite R2. unfold s0. now apply vu_set_vu_same.
+    + intros u Hu. rewrite A by (now apply dedup_In). now rewrite R1.
+    + intros u Hu. rewrite B by (now rewrite dedup_In). apply R1.
+    + intros w D. rewrite R2. unfold s0. rewrite vu_set_vu_other by congruence. now apply vu_alloc_all.
+    + destruct G as (_ & N & _). rewrite N. unfold s0. rewrite next_set_vu. apply next_alloc.
+Qed.
+
+
+Print Assumptions uni_inv_step.
+Print Assumptions uadd_new.
+Print Assumptions uremove_member.
+Print Assumptions vadd_new.
+Print Assumptions vremove_member.
+Print Assumptions new_vertex_universes.
+Print Assumptions uni_inv_reachable.
